@@ -6,9 +6,12 @@ Models: `Model/History.lean` (ClipperBase as a state machine, the sweep a parame
 RectClip64::Execute).  The correspondence harness `harness/C12.cpp` replays every history on the real object and
 compares its private members with `History` (`HISTREPLAY`), and the final frame members of a real ClipperOffset with
 `OffsetState` (`OFFFRAME`).
+`Model/HistoryPaths.lean`: the same histories with add calls that carry *paths*; the minima are computed by the model of
+`AddPaths_` (`Model/AddPathsRings.lean`).  `HISTREPLAY` sends paths, so what the harness compares is this composed model.
 -/
 import ClipperVerif.Generated.Engine
 import ClipperVerif.Lemmas.History
+import ClipperVerif.Lemmas.HistoryPaths
 import ClipperVerif.Model.OffsetState
 import ClipperVerif.Model.RectClipFrame
 namespace Clipper.Props.C12
@@ -215,6 +218,132 @@ theorem reuseable_shared {R : Type} (run : Sweep R) (hbot : SweepIgnoresBotY run
       i.reverse = j.reverse → i = j := by
     intro i j; cases i; cases j; simp; intros; simp_all
   exact this _ _ (m1.trans m2.symm) (o1.trans o2.symm) (a1.trans a2.symm) ho.1 ho.2
+
+/-! ## the same, over histories whose add calls carry *paths*
+
+`Model/HistoryPaths.lean`: `POp` = the public calls with the paths they are given; `lower` turns such a history into the
+member-level history above, the minima of each add call being *computed* by the model of `AddPaths_`
+(`Model/AddPathsRings.lean`; that model is compared bit for bit with the real vertex array by `harness/AddPaths.cpp`, and
+`HISTREPLAY` sends the paths and compares the real `minima_list_` element by element after every op);
+`pinputsOf` is the summary computed from the paths alone. -/
+
+section Paths
+open Clipper.Model.HistoryPaths Clipper.Lemmas.HistoryPaths
+open Clipper.Lemmas.AddPathsRings (MinV minimaV)
+open Clipper.Props.C13AddPaths (toHist leV)
+
+/-- **For every path-level history and every Execute in it**, the value returned is `run` on the object `sweepStart` of
+the inputs computed from the paths added since the last `Clear` (their minima by `AddPaths_`, stably sorted) and the current
+options — position `pre.length` of the outputs of `pre ++ Execute :: post`.  (`execute_eq_fresh` is the member-level
+statement this is an instance of.) -/
+theorem execute_eq_fresh_paths {R : Type} (run : Sweep R) (hbot : SweepIgnoresBotY run) (pre post : List POp)
+    (ct : ClipType) (fr : FillRule) (tree : Bool) :
+    (runHist run (lower (pre ++ POp.execute ct fr tree :: post))).2[pre.length]? =
+      some (some (sweepResult run (pinputsOf pre) ct fr tree)) := by
+  unfold lower
+  rw [lowerFrom_append]
+  simp only [lowerFrom, lowerOp]
+  have h := execute_eq_fresh run hbot (lowerFrom 0 pre) (lowerFrom (nextCount (pre.foldl nextCount 0) (POp.execute ct fr tree)) post) ct fr tree
+  rw [lowerFrom_length] at h
+  rw [h]
+  exact congrArg (fun i => some (some (sweepResult run i ct fr tree))) (inputsOf_lower pre)
+
+/-- Two path-level histories with the same inputs return the same value from the same Execute. -/
+theorem execute_history_independent_paths {R : Type} (run : Sweep R) (hbot : SweepIgnoresBotY run) (h₁ h₂ : List POp)
+    (hin : pinputsOf h₁ = pinputsOf h₂) (ct : ClipType) (fr : FillRule) (tree : Bool) :
+    (execute run (after run (lower h₁)) ct fr tree).1 = (execute run (after run (lower h₂)) ct fr tree).1 :=
+  execute_history_independent run hbot _ _ (by rw [inputsOf_lower, inputsOf_lower, hin]) ct fr tree
+
+/-- replaying, on a new object, the current options and then the add calls since the last `Clear` *with the same paths*
+reproduces the inputs -/
+theorem pinputsOf_replay (h : List POp) : pinputsOf (preplayOf h) = pinputsOf h :=
+  Clipper.Lemmas.HistoryPaths.pinputsOf_replay h
+
+/-- **A used object returns what a freshly constructed one returns** when the fresh one is given the current options and
+the *paths* added since the last `Clear` (same calls, same order). -/
+theorem used_eq_fresh_replay_paths {R : Type} (run : Sweep R) (hbot : SweepIgnoresBotY run) (pre : List POp)
+    (ct : ClipType) (fr : FillRule) (tree : Bool) :
+    (execute run (after run (lower pre)) ct fr tree).1 = (execute run (after run (lower (preplayOf pre))) ct fr tree).1 :=
+  execute_history_independent_paths run hbot _ _ (pinputsOf_replay pre).symm ct fr tree
+
+/-- **Order of the paths within the add calls.**  Let `h'` be `h` with the path list of every add call permuted
+(`PermHist`; no `AddReuseableData`), and let the local minima created since the last `Clear` (`minimaVSince h`: each
+minimum with its ring, flags and position in the ring, i.e. everything the sweep reaches from the `LocalMinima`) lie at
+pairwise distinct points.  Then the objects on which the sweep of an Execute starts after `h` and after `h'` hold the
+same sorted list `sorted` of minima-with-rings, each under the name (`vid` = creation number) it has in its own history,
+and agree in every other member. -/
+theorem execute_path_order_independent (h h' : List POp) (hr : PermHist h h')
+    (hnr : ∀ op ∈ h, POp.isReuse op = false)
+    (hd : (minimaVSince h).Pairwise (fun a b => a.pt ≠ b.pt))
+    (ct : ClipType) (fr : FillRule) (tree : Bool) :
+    let s := sweepStart (pinputsOf h) ct fr tree
+    let s' := sweepStart (pinputsOf h') ct fr tree
+    let sorted := (minimaVSince h).mergeSort leV
+    ∃ vid vid' : MinV → Nat,
+      (s.minima = sorted.map (toHist vid) ∧ ∀ v ∈ sorted, (minimaVSince h)[vid v]? = some v) ∧
+      (s'.minima = sorted.map (toHist vid') ∧ ∀ v ∈ sorted, (minimaVSince h')[vid' v]? = some v) ∧
+      { s' with minima := s.minima } = s := by
+  intro s s' sorted
+  have hnr' := permHist_noReuse hr hnr
+  obtain ⟨hperm, ho, ha, hp, hv⟩ := permHist_fold hr {} {} [] [] (List.Perm.refl _) rfl rfl rfl rfl
+  have hperm : (minimaVSince h).Perm (minimaVSince h') := hperm
+  have hd' : (minimaVSince h').Pairwise (fun a b => a.pt ≠ b.pt) := hd.perm hperm (fun hxy e => hxy e.symm)
+  have hsort : (minimaVSince h').mergeSort leV = sorted := (mergeSort_leV_perm _ _ hperm hd).symm
+  have key : ∀ g : List POp, (∀ op ∈ g, POp.isReuse op = false) → (minimaVSince g).Pairwise (fun a b => a.pt ≠ b.pt) →
+      (sweepStart (pinputsOf g) ct fr tree).minima
+        = ((minimaVSince g).mergeSort leV).map (toHist (fun m => 0 + (minimaVSince g).idxOf m)) ∧
+      ∀ v ∈ (minimaVSince g).mergeSort leV, (minimaVSince g)[(fun m => 0 + (minimaVSince g).idxOf m) v]? = some v := by
+    intro g hg hdg
+    refine ⟨?_, ?_⟩
+    · show stableSort (pinputsOf g).minima = _
+      rw [pinputs_minima g hg, label_eq_map 0 _ (nodup_of_distinct_pts hdg)]
+      exact Clipper.Props.C13AddPaths.stableSort_toHist _ _
+    · intro v hv
+      have hmem : v ∈ minimaVSince g := (List.mergeSort_perm _ leV).mem_iff.mp hv
+      have hlt := List.idxOf_lt_length_of_mem hmem
+      simp only [Nat.zero_add]
+      rw [List.getElem?_eq_getElem hlt, List.getElem_idxOf hlt]
+  obtain ⟨k1, k2⟩ := key h hnr hd
+  obtain ⟨k1', k2'⟩ := key h' hnr' hd'
+  rw [hsort] at k1' k2'
+  refine ⟨_, _, ⟨k1, k2⟩, ⟨k1', k2'⟩, ?_⟩
+  have hy : s'.minima.map (·.y) = s.minima.map (·.y) := by
+    rw [k1, k1', List.map_map, List.map_map]; exact List.map_congr_left (fun v _ => rfl)
+  have hs : s = sweepStart (pinputsOf h) ct fr tree := rfl
+  have hs' : s' = sweepStart (pinputsOf h') ct fr tree := rfl
+  have hm' : s'.minima = stableSort (pinputsOf h').minima := rfl
+  have hm : s.minima = stableSort (pinputsOf h).minima := rfl
+  rw [hm'] at hy; rw [hm] at hy ⊢
+  rw [hs, hs']
+  unfold sweepStart
+  simp only [hy]
+  have e1 : (pinputsOf h').allocs = (pinputsOf h).allocs := ha.symm
+  have e2 : (pinputsOf h').hasOpen = (pinputsOf h).hasOpen := ho.symm
+  have e3 : (pinputsOf h').preserve = (pinputsOf h).preserve := hp.symm
+  have e4 : (pinputsOf h').reverse = (pinputsOf h).reverse := hv.symm
+  rw [e1, e2, e3, e4]
+
+/-! non-vacuity of `execute_path_order_independent`: two add calls (subject, clip), each with its two paths in the other
+order, an Execute and an option change in between; four minima at distinct points -/
+def demoP : List POp :=
+  [.addSubject [[⟨0,0⟩, ⟨4,4⟩, ⟨8,0⟩], [⟨20,1⟩, ⟨24,5⟩, ⟨28,1⟩]], .execute .union .nonZero false, .setReverse true,
+   .addClip [[⟨2,0⟩, ⟨5,3⟩, ⟨9,0⟩], [⟨30,1⟩, ⟨34,6⟩, ⟨38,1⟩]]]
+def demoP' : List POp :=
+  [.addSubject [[⟨20,1⟩, ⟨24,5⟩, ⟨28,1⟩], [⟨0,0⟩, ⟨4,4⟩, ⟨8,0⟩]], .execute .union .nonZero false, .setReverse true,
+   .addClip [[⟨30,1⟩, ⟨34,6⟩, ⟨38,1⟩], [⟨2,0⟩, ⟨5,3⟩, ⟨9,0⟩]]]
+example : PermHist demoP demoP' :=
+  .cons (.addSubject (List.Perm.swap _ _ _)) (.cons (.same _) (.cons (.same _) (.cons (.addClip (List.Perm.swap _ _ _)) .nil)))
+example : (∀ op ∈ demoP, POp.isReuse op = false) ∧ (minimaVSince demoP).Pairwise (fun a b => a.pt ≠ b.pt) ∧
+    (minimaVSince demoP).length = 4 := by decide
+/-- the two unsorted minima lists do differ -/
+example : (pinputsOf demoP).minima ≠ (pinputsOf demoP').minima := by decide
+/-- the minima are computed: an add op carries nothing but paths -/
+example : (pinputsOf [.addSubject [[⟨0,0⟩, ⟨4,4⟩, ⟨8,0⟩]], .addClip [[⟨0,5⟩, ⟨3,5⟩, ⟨6,5⟩, ⟨6,0⟩, ⟨0,0⟩]]]).minima
+    = [⟨4, 4, .subject, false, 0⟩, ⟨5, 6, .clip, false, 1⟩] := by decide
+example : preplayOf demoP = [.setPreserve true, .setReverse true, .addSubject [[⟨0,0⟩, ⟨4,4⟩, ⟨8,0⟩], [⟨20,1⟩, ⟨24,5⟩, ⟨28,1⟩]],
+    .addClip [[⟨2,0⟩, ⟨5,3⟩, ⟨9,0⟩], [⟨30,1⟩, ⟨34,6⟩, ⟨38,1⟩]]] := by decide
+
+end Paths
 
 /-! non-vacuity: the hypotheses on the sweep are met by a sweep that does read stale-prone members, and a concrete
 history with re-sorting, an intermediate execution and a `Clear` -/
